@@ -56,30 +56,6 @@ theorem C12_srcmap_partial (G U : String) (src : Nat → Nat) (items : List Walk
   have hk : k.file = G := hkeys it hit k hkey (by simp [horg])
   exact ⟨hk, horigin it hit k o hkey horg hk⟩
 
-/-- The class predicate of known finding `C12-srcmap-foreign-key` (negation of `hkeys`), as evaluated by the driver. -/
-def hasForeignKey (G : String) (items : List WalkItem) : Bool :=
-  items.any fun it => match it.key, it.origin with
-    | some k, some _ => decide (k.file ≠ G)
-    | _, _ => false
-
-theorem hasForeignKey_false_iff (G : String) (items : List WalkItem) :
-    hasForeignKey G items = false ↔ ∀ it ∈ items, ∀ k, it.key = some k → it.origin ≠ none → k.file = G := by
-  unfold hasForeignKey
-  rw [List.any_eq_false]
-  constructor
-  · intro h it hit k hk ho
-    have := h it hit
-    cases hor : it.origin with
-    | none => exact absurd hor ho
-    | some o => simp [hk, hor] at this; exact this
-  · intro h it hit
-    cases hk : it.key with
-    | none => simp
-    | some k =>
-      cases hor : it.origin with
-      | none => simp
-      | some o => simp; exact h it hit k hk (by simp [hor])
-
 /-- Every annotated node's line is in the map (no line with an annotated node is left unmapped). -/
 theorem C12_srcmap_complete (items : List WalkItem) (it : WalkItem) (hit : it ∈ items)
     (k : LineLoc) (o : Origin) (hk : it.key = some k) (ho : it.origin = some o) :
@@ -165,23 +141,6 @@ end srcmap_examples
 
 /-! ## 2. Translated stack -/
 
-/-- (file, function, line) of the listed frames lying in the user file `U`, innermost first. -/
-def userLocs (U : String) (st : List FrameInfo) : List Loc3 :=
-  (st.map FrameInfo.loc).filter (fun p => decide (p.1 = U))
-
-/-- User frames of the traceback of the *unconverted* run, outermost first: per converted function the
-frames it contributes (`outer`, then the frame executing the statement), then the unconverted tail. -/
-def origTraceback (U : String) (L : List ConvLevel) (T : List Frame) : List Frame :=
-  L.flatMap (fun l => l.outer ++ [l.orig]) ++ T.filter (fun f => decide (f.file = U))
-
-/-- The source map's origin for the site names the file, line and function of the frame that executes
-the same statement unconverted (origin inheritance + `OriginResolver`; the function part fails for
-lambdas, which the resolver does not track). -/
-def SiteResolved (U : String) (l : ConvLevel) : Prop :=
-  l.orig.file = U ∧ l.siteOrigin.file = l.orig.file ∧ l.siteOrigin.line = l.orig.line ∧ l.siteOrigin.fn = some l.orig.fn
-
-instance (U : String) (l : ConvLevel) : Decidable (SiteResolved U l) := by unfold SiteResolved; infer_instance
-
 /-- The translated stack, exactly: below the innermost converted site every frame outside `api.py` is
 listed as it is, then one entry per converted function, innermost first, taken from its source map. -/
 theorem C12_stack_exact (api msg : String) (L : List ConvLevel) (T : List Frame) (hne : L ≠ [])
@@ -206,6 +165,16 @@ theorem C12_stack_exact (api msg : String) (L : List ConvLevel) (T : List Frame)
       obtain ⟨l, _, rfl⟩ := List.mem_map.mp hfi
       rfl
     rw [h1, h2]; rfl
+
+/-- The translated stack with its markers, exactly (documented in g3doc/reference/error_handling.md):
+below the innermost converted site every frame outside `api.py` is listed unchanged and carries `**`
+(allow-listed) iff its caller is an `api.py` frame — code AutoGraph reached but did not convert —;
+then one `*` (converted) entry per converted function. -/
+theorem C12_stack_markers (api msg : String) (L : List ConvLevel) (T : List Frame) (hne : L ≠ [])
+    (hS : ∀ l ∈ L, SiteMapped l) (hK : ∀ l ∈ L, KeysInGen l) (hB : BelowForeign L T) :
+    runChain api msg L T = some
+      ⟨(markSpec api false (lastBelow L T)).reverse ++ L.reverse.map (fun l => FrameInfo.ofOrigin l.siteOrigin), msg⟩ := by
+  rw [runChain_eq api msg L T hne hS hK hB, innerInfos, elide_eq_markSpec]
 
 private theorem lastBelow_eq (L : List ConvLevel) (T : List Frame) (hne : L ≠ []) :
     lastBelow L T = (L.getLast hne).post ++ T := by
@@ -318,11 +287,6 @@ theorem C12_stack_partial (api U msg : String) (L : List ConvLevel) (T : List Fr
       · subst h; simp [List.concat_eq_append]
     rw [this]
 
-/-- The hypotheses of `C12_stack_partial` as one decidable test on a decomposed recorded run. -/
-def stackHypsB (api U : String) (L : List ConvLevel) (T : List Frame) : Bool :=
-  decide (∀ l ∈ L, KeysInGen l) && decide (BelowForeign L T) && decide (∀ l ∈ L, SiteResolved U l)
-    && decide (api ≠ U) && decide (∀ f ∈ (lastBelow L T).take ((lastBelow L T).length - T.length), f.file ≠ U)
-
 /-- **Verified checker** for recorded runs: when a recorded chain decomposes into levels and passes the
 decidable test, the model's translated stack satisfies the conclusion test `conclusionHolds` against
 the user frames of the unconverted run (so a recorded run that passes `stackHypsB` but whose real stack
@@ -433,20 +397,6 @@ theorem C12_stack_lambda_counterexample :
       ≠ some (((origTraceback uF [lamLevel] []).map Frame.loc).getLast?) := by
   refine ⟨by decide, by decide, by decide, by decide, by decide⟩
 end stack_examples
-
-/-- The class predicates of the stack findings, as evaluated by the driver on the recorded levels
-(innermost first; `genFiles` = file of each level's conversion). -/
-def reentered (genFiles : List String) : Bool := !(genFiles.eraseDups.length == genFiles.length)
-
-/-- Some frame of the traceback lying outside the level's generated file is a key of the level's map. -/
-def foreignKeyHit (genFile : String) (lv : Level) : Bool :=
-  lv.tb.any fun f => decide (f.file ≠ genFile) && (get lv.map ⟨f.file, f.line⟩).isSome
-
-/-- The innermost mapped frame of the level is a lambda's. -/
-def siteInLambda (lv : Level) : Bool :=
-  match lv.tb.reverse.find? (fun f => (get lv.map ⟨f.file, f.line⟩).isSome) with
-  | some f => f.fn == "<lambda>"
-  | none => false
 
 /-! ## 3. Daisy chaining, as the harness observes it -/
 
